@@ -186,3 +186,46 @@ Example C12_steps_nonvacuous :
     /\ eval_rhs GenScalar.G ρ (RZip "a" "b")%string s = Ok (w, s1)
     /\ recorded_as s1 3 (TyArray (TyTuple (TyName "SecretInteger") (TyName "Integer")) (Some 4)) (ABinary "Zip" 1 2)%string.
 Proof. do 4 eexists. split; [vm_compute; reflexivity|]. split; vm_compute; reflexivity. Qed.
+
+(* ---- the remaining constructors and the field accessor (Proofs/C12Steps2.v), same generality: any environment,
+   any tracer state.  The collection returned holds the argument values themselves, in written order (under the
+   written keys), and the type recorded is the type of the value returned. *)
+From NadaV.Proofs Require Import C12Steps2.
+
+Theorem C12_tuple_new_result : forall ρ a b s w s1,
+  eval_rhs GenScalar.G ρ (RTupleNew a b) s = Ok (w, s1) ->
+  exists x y i1 i2 ty,
+    bound_to ρ a x /\ bound_to ρ b y /\ wid x = Some i1 /\ wid y = Some i2
+    /\ w = WTuple (DInst x) (DInst y) (Some (counter s + 1)) /\ to_mir w = Ok ty
+    /\ recorded_as s1 (counter s + 1) ty (ANew "TupleNew" [i1; i2])%string.
+Proof. exact (tuple_new_accepted GenScalar.G). Qed.
+Print Assumptions C12_tuple_new_result.
+
+Theorem C12_ntuple_new_result : forall ρ es s w s1,
+  eval_rhs GenScalar.G ρ (RNTupleNew es) s = Ok (w, s1) ->
+  exists ws ids ty,
+    Forall2 (bound_to ρ) es ws /\ Forall2 has_id ws ids
+    /\ w = WNTuple ws (Some (counter s + 1)) /\ to_mir w = Ok ty
+    /\ recorded_as s1 (counter s + 1) ty (ANew "NTupleNew" ids)%string.
+Proof. exact (ntuple_new_accepted GenScalar.G). Qed.
+Print Assumptions C12_ntuple_new_result.
+
+Theorem C12_object_new_result : forall ρ fs s w s1,
+  eval_rhs GenScalar.G ρ (RObjectNew fs) s = Ok (w, s1) ->
+  exists ws ids ty,
+    Forall2 (bound_to ρ) (map snd fs) ws /\ Forall2 has_id ws ids
+    /\ w = WObject (combine (map fst fs) ws) (Some (counter s + 1)) /\ to_mir w = Ok ty
+    /\ recorded_as s1 (counter s + 1) ty (ANew "ObjectNew" ids)%string.
+Proof. exact (object_new_accepted GenScalar.G). Qed.
+Print Assumptions C12_object_new_result.
+
+Theorem C12_field_result : forall ρ a vals it k s w s1,
+  bound_to ρ a (WObject vals it) ->
+  eval_rhs GenScalar.G ρ (RField a k) s = Ok (w, s1) ->
+  reserved_attr k = false /\
+  exists v src, assoc k vals = Some v /\ it = Some src /\
+    ((exists b li lv, v = WScalar (MConst, b) li lv /\ w = v /\ store s1 = store s)
+     \/ (exists ty, to_mir v = Ok ty /\ to_mir w = Ok ty /\ wid w = Some (counter s + 1)
+                    /\ recorded_as s1 (counter s + 1) ty (AObjectAcc k src))).
+Proof. exact (field_accepted GenScalar.G). Qed.
+Print Assumptions C12_field_result.
